@@ -3,6 +3,7 @@ from __future__ import annotations
 
 import contextlib
 import enum
+import hashlib
 import io
 import itertools
 import os
@@ -15,6 +16,7 @@ from typing import Any
 from harness.common import REPO, Ck, coq_list, parse_coq_nested
 from harness import c10_util
 from translate import c10_bspgraph
+from translate import c11_formats, c11_glue      # C11's translators (read-only here): the generated view codecs
 
 MANIFEST = dict(
     technique='Rocq proof (lazy-lump state machine with looks that raise: get/save over a dependency graph and a generated '
@@ -22,7 +24,9 @@ MANIFEST = dict(
               'read (write c) = c) + ast translator (ParsedLump/rebuild-order/reader/writer dependency graph, event order of '
               'ParsedLump.__get__ on every path, loop shape of BSP.save, reader-side lump stores, read-only/appending view uses, '
               'container constants) + vm_compute correspondences (traced get/save runs including raising looks; container model '
-              'vs BSP.read/BSP.save byte-exact in both directions) + round-trip oracle on real, synthesised and malformed BSPs',
+              'vs BSP.read/BSP.save byte-exact in both directions) + per-view codec premises re-derived from the view codecs that C11\'s '
+              'translators generate from bsp.py (154 kernel-checked obligations grouped by view) + round-trip oracle on real, '
+              'synthesised (adversarial-but-valid table contents) and malformed BSPs',
     text='Theorems in Props/C10.v, for every dependency graph g with order_consistent g = true, every __get__/save shape sh with '
          'shape_ok sh = true and every sequence of view accesses, including accesses whose reader raises and is caught: a look '
          'succeeds or fails only because some reader rejects the file\'s data (never for lack of fuel); a failed look leaves the '
@@ -48,7 +52,20 @@ MANIFEST = dict(
          'container and layout with LZMA as an inverse pair (header, 64-row table in standard and L4D2 field order, revision, '
          'payload placement in write order, game-lump directory with absolute offsets, NUL separators and the dummy entry); '
          'four wf conditions shown necessary. order_consistent bsp_graph, shape_ok bsp_shape, layout_ok bsp_layout, '
-         'bsp_layout = std_layout and 24 further named obligations are re-derived from bsp.py and kernel-checked on every run.',
+         'bsp_layout = std_layout and 24 further named obligations are re-derived from bsp.py and kernel-checked on every run. '
+         'Round 4: c10_property states the whole property once, with one codec premise per view (codec_ok_at: on the value the reader '
+         'makes of THIS file\'s lumps the writer\'s output reads back equal and has one datum per owned lump): graph, shape and '
+         'writers-look conditions + the premises give, for every access sequence, that save completes, empties the cache, keeps every '
+         'view\'s content, keeps unowned lumps and the lumps of views outside the dependency closure byte-identical and is idempotent. '
+         'For the texture-name view the premise is PROVED from the object generated from _lmp_write_textures/_lmp_read_textures '
+         '(C11\'s tex_cfg): texcfg_ok (pool searched for name+NUL, name+NUL appended, guard below the window) and '
+         'texcfg_window_is_guard (every name the reader can return passes the writer\'s guard) imply the premise for every content '
+         'of the two lumps; seeded c10_5 (bare-name search) refuted in closed form. For views that are a plain array of fixed struct '
+         'records (planes, vertexes, cubemaps) the premise is proved at record level for every lump content from C11\'s generated '
+         'stream (one well-formed format of positive size on both sides), using the direction C11 does not state: whatever unpack '
+         'returns for bytes fits the format. For the other views the premise is supported by '
+         'C11\'s obligations over the generated records, formats, dedup keys, bit fields, entity template and visibility rows, '
+         'discharged here per view on every run (codec[<views>]:<name>); pakfile has none.',
     note='Assumed in the theorems (visible hypotheses): each lump writer inverts its reader on the file\'s lumps (codec_ok, '
          'wr_len_ok: property C11); decompress (compress d) = d (CPython lzma). The container theorem is about the model '
          'Fmt/BspContainer.v, tied to BSP.read/BSP.save by byte-exact correspondence on random containers (not by a translator of '
@@ -59,7 +76,13 @@ MANIFEST = dict(
          'conditionally by the three face writers) is modelled under the visible hypothesis side_ok, whose data half (the ids '
          'written are the bytes of the file) is checked by the oracle only, on FACEIDS lumps that are full, all zero, empty and '
          'shorter than the face array; a FACEIDS lump LONGER than the face array (no compiler writes one) is cut to the face '
-         'count by a look at faces + save (same parsed content, different bytes): outside the inputs searched. Hidden mutations: '
+         'count by a look at faces + save (same parsed content, different bytes): in the default search since round 4, recorded as '
+         'known finding raw-changed:FACEIDS|viewed=faces|input:faceids=long. Per-view codec premises: only the texture-name view '
+         'has a theorem from the generated object to the premise; for the other views C11\'s obligations are necessary conditions '
+         'tied to C11\'s theorems about assigned values, the step to "values read from this file" (every reference resolves into its '
+         'table, values the reader returns fit the writer\'s formats) is searched only; C11\'s translators are used unchanged, so a '
+         'refactoring they cannot classify alarms here too. Texture names that differ only in case are outside the inputs (the '
+         'texinfo writer de-duplicates names case-insensitively, as the compilers do). Hidden mutations: '
          'the translator lists the (reader, view) pairs by a taint analysis (may-analysis of direct attribute/item stores and '
          'mutating method calls, followed through BSP methods; changes made inside other classes\' methods are not seen) and '
          'the check pins the list; for (bmodels, ents) the graph hypotheses of the theorem and "nothing that can raise follows '
@@ -147,6 +170,32 @@ def _quiet():
     return contextlib.redirect_stdout(io.StringIO())
 
 
+class TrialTimeout(BaseException):
+    """Raised by the alarm around a call into the implementation (BaseException: not swallowed by `except Exception`)."""
+
+
+# one look + save + re-read history takes 0.05 s on the synthesised files and up to 3 s on the bundled map under load; a
+# call into the implementation that has not returned after this many seconds is reported as a failing input (`hangs`)
+TRIAL_LIMIT_S = 60
+
+
+def with_alarm(seconds: float, fn, *args, **kw):
+    import signal
+    import threading
+    if threading.current_thread() is not threading.main_thread():
+        return fn(*args, **kw)
+
+    def on_alarm(signum, frame):
+        raise TrialTimeout()
+    old = signal.signal(signal.SIGALRM, on_alarm)
+    signal.setitimer(signal.ITIMER_REAL, seconds)
+    try:
+        return fn(*args, **kw)
+    finally:
+        signal.setitimer(signal.ITIMER_REAL, 0)
+        signal.signal(signal.SIGALRM, old)
+
+
 def open_bsp(path):
     from srctools.bsp import BSP
     with _quiet():
@@ -187,6 +236,7 @@ class Subject:
         self.name, self.path, self.desc = name, path, desc
         self.ref = raw_snapshot(open_bsp(path))
         self._canon: dict[str, Any] = {}
+        self.out_canon: dict[tuple[str, bytes], Any] = {}
         self.malformed = bool(desc.get('opts', {}).get('bad'))
 
     def unparsable(self, view: str) -> bool:
@@ -303,8 +353,14 @@ def compare(subj: Subject, path_out, own: dict[str, str]) -> list[tuple[str, str
                 else:
                     probs.append((f'raw-changed:{nm}', f'game lump without a view: {len(data)} -> {len(ndata)} bytes'))
     diffs = {}
+    # the parsed content of a view of the saved file is a function of the file's content: histories that produce the same
+    # container (all lumps, versions, flags, game lumps) share the result
+    memo = subj.out_canon
+    digest = hashlib.sha1(repr(sorted(new.items())).encode('latin1', 'backslashreplace')).digest() if changed else b''
     for v in affected_views(changed, own):
-        a, b = subj.canon(v), view_canon(path_out, v)
+        if (v, digest) not in memo:
+            memo[v, digest] = view_canon(path_out, v)
+        a, b = subj.canon(v), memo[v, digest]
         if a != b:
             diffs[v] = _first_diff(a, b)
     for v in primary(list(diffs)):
@@ -395,7 +451,7 @@ def run_trial(subj: Subject, cycles: list[list[str]], work: Path, own: dict[str,
 # ================================================================================================ inputs
 DEFAULT_OPTS = dict(layout='v20', compress=(), origin_vertex=True, faceids='full', water=True, overlay_aux=True, vis=True,
                     n_extra=1, extra_game=False, compress_game=(), fractional_bounds=False, detail_shapes=False, hdr=True, bad=(),
-                    aux='normal')
+                    aux='normal', adv=True, sprp='layout', empty=False, odd_lzma=False)
 VARIANTS: list[dict] = (
     [dict(layout=l) for l in c10_util.LAYOUTS]
     + [dict(compress=('ENTITIES', 'PLANES', 'LEAFS', 'LIGHTING', 'FACES', 'TEXDATA_STRING_DATA')),
@@ -403,11 +459,21 @@ VARIANTS: list[dict] = (
        dict(compress_game=('dprp',)), dict(compress_game=('sprp', 'dprp', 'xtra'), extra_game=True),
        dict(extra_game=True), dict(layout='l4d2', compress=('ENTITIES', 'BRUSHES'), compress_game=('dprp',)),
        dict(n_extra=0), dict(n_extra=2, layout='v21'), dict(water=False), dict(overlay_aux=False), dict(vis=False),
-       dict(hdr=False), dict(faceids='zeros'), dict(faceids='empty'), dict(faceids='short'), dict(origin_vertex=False),
+       dict(hdr=False), dict(faceids='zeros'), dict(faceids='empty'), dict(faceids='short'), dict(faceids='long'), dict(origin_vertex=False),
+       dict(adv=False),
        dict(layout='chaos', fractional_bounds=True), dict(detail_shapes=True)]
     # side lumps (cleared by a look, restored only by the view's writer) at the values where they LOOK unused
     + [dict(aux='zero'), dict(aux='default'), dict(aux='mixed'), dict(aux='maxed'), dict(aux='absent'),
        dict(aux='zero', layout='l4d2', compress=('OVERLAY_FADES', 'LEAFMINDISTTOWATER', 'TEXDATA'))]
+    # game-lump layouts chosen by the lump's version field (static props V4 .. V13, the lightmapped 2013 layouts), tables that
+    # are empty in many real maps (the static-prop reader then guesses the layout from the version number alone), LZMA blobs
+    # with parameters / a dictionary size / trailing padding that srctools' own writer never produces
+    + [dict(sprp=4), dict(sprp=7), dict(sprp=8), dict(sprp=10), dict(sprp=11, layout='v21'), dict(sprp='mesa'), dict(sprp='lm7'), dict(sprp='lm10'),
+       dict(sprp=13, layout='chaos'), dict(empty=True), dict(empty=True, sprp=7), dict(empty=True, sprp=10, layout='v21'),
+       dict(empty=True, sprp=11, layout='v21', compress_game=('sprp', 'dprp')),
+       dict(odd_lzma=True, compress=('ENTITIES', 'TEXDATA_STRING_DATA', 'FACES', 'FACEIDS', 'LIGHTING', 'PLANES'),
+            compress_game=('sprp', 'dprp')),
+       dict(odd_lzma=True, layout='l4d2', compress=('LEAFS', 'OVERLAYS', 'MODELS', 'WORLDLIGHTS'), compress_game=('dprp',))]
 )
 # malformed lumps: looking at the view raises (at once, or after other views were parsed), the caller goes on and saves
 BAD_VARIANTS: list[dict] = [
@@ -426,6 +492,31 @@ def make_subject(work: Path, opts: dict, seed: int, tag: str) -> Subject:
     subj = Subject('synth:' + ','.join(f'{k}={v}' for k, v in sorted(opts.items())) or 'synth:default', p, dict(opts=opts, seed=seed))
     subj.parts = desc['_parts']
     return subj
+
+
+def derive_sample(work: Path) -> Subject | None:
+    """The bundled map with its texture name table made adversarial (it has a single name): the table gets, after the
+    names of the file, a longer name and then a prefix, an inner substring and a tail of it, each stored in full, plus a
+    second entry for the first name.  No texdata refers to the new entries (a name table may hold unused names)."""
+    from srctools.bsp import BSP_LUMPS
+    dec = c10_util.decode_container(SAMPLE.read_bytes())
+    if 'error' in dec:
+        return None
+    sd, st = BSP_LUMPS.TEXDATA_STRING_DATA.value, BSP_LUMPS.TEXDATA_STRING_TABLE.value
+    data, table = dec['lumps'][sd]['data'], dec['lumps'][st]['data']
+    first = struct.unpack_from('<i', table, 0)[0] if len(table) >= 4 else 0
+    base = data[first:data.index(b'\0', first)] if data else b'dev/devmeasuregeneric01'
+    for nm in (base + b'_-128_64_32', base, base[1:], base[2:-2], b'_-128_64_32'):
+        table += struct.pack('<i', len(data))
+        data += nm + b'\0'
+    table += struct.pack('<i', first)
+    lumps = {i: (l['version'], l['data'], l['fourcc'] > 0) for i, l in dec['lumps'].items()}
+    lumps[sd] = (lumps[sd][0], data, lumps[sd][2])
+    lumps[st] = (lumps[st][0], table, lumps[st][2])
+    games = [(g['id'], g['flags'], g['version'], g['data']) for g in dec['game_lumps']]
+    p = work / 'in_sample_names.bsp'
+    p.write_bytes(c10_util.encode_container(dec['magic'], dec['version'], dec['l4d2'], dec['map_revision'], lumps, games))
+    return Subject('rot_main.bsp+names', p, {'file': 'tests/test_vec/rot_main.bsp', 'derive': 'names'})
 
 
 def input_tag(opts: dict, fails) -> str:
@@ -513,7 +604,11 @@ def correspondence(ck: Ck, side: dict, subjects: list[Subject], work: Path) -> N
     n = ck.budget(60, 600)
     cases = []
     missing: set[tuple[str, str, str]] = set()
+    hung = False
     for subj in subjects:
+        if hung:
+            ck.notes.append(f'correspondence: {subj.name} skipped after a traced run did not return')
+            continue
         ref_nonempty = {l for l, (_, _, d) in subj.ref['lumps'].items() if d} | \
                        {'game:' + g[0].decode() for g in subj.ref['games'] if g[3]}
         seqs = [[v] for v in VIEWS] + [list(VIEWS), list(reversed(VIEWS))]
@@ -524,7 +619,8 @@ def correspondence(ck: Ck, side: dict, subjects: list[Subject], work: Path) -> N
         with Tracer() as tr:
             for accs in seqs:
                 flags = []
-                try:
+
+                def traced_run(accs=accs, flags=flags):
                     b = open_bsp(subj.path)
                     for v in accs:
                         try:
@@ -540,9 +636,15 @@ def correspondence(ck: Ck, side: dict, subjects: list[Subject], work: Path) -> N
                         saved = True
                     except Exception:      # noqa: BLE001
                         saved = False
-                    o2 = observe(b, ref_nonempty, pos, tr)
-                except Exception as e:      # noqa: BLE001 - reported by the search stage with a replay
+                    return o1, saved, observe(b, ref_nonempty, pos, tr)
+                try:
+                    o1, saved, o2 = with_alarm(TRIAL_LIMIT_S, traced_run)
+                except (Exception, TrialTimeout) as e:      # noqa: BLE001 - reported by the search stage with a replay
+                    tr.stack.clear()
                     ck.notes.append(f'correspondence: {subj.name} {accs}: {type(e).__name__}: {e}')
+                    if isinstance(e, TrialTimeout):
+                        hung = True         # every further traced run could cost the time limit again: the search reports it
+                        break
                     continue
                 runs.append((accs, flags, o1, saved, o2))
                 ck.count('correspondence_runs')
@@ -618,6 +720,8 @@ Definition sim (g : graph) (ne bad : list nat) (accs : list nat) :=
     if bad:
         ck.tie_broken.append('correspondence get/save (SM/LazyLumps.v vs ParsedLump.__get__/BSP.save)')
         ck.extra['get_save_disagreement'] = bad[:3]
+    if not cases or not cases[-1][2]:
+        return
     last = cases[-1][2][-1]
     ck.sample({'correspondence_case': {'file': cases[-1][0].name, 'accs': last[0], 'look_ok': last[1],
                                        'impl_after_look(cached,emptied)': last[2], 'save_ok': last[3], 'impl_after_save': last[4]}})
@@ -817,13 +921,152 @@ Definition case (t : list (list N * list N)) (c : container) (impl aligned : lis
             ck.explain('correspondence:container')      # the same disagreement seen by the independent Python encoder
 
 
+# ================================================================================================ per-view codec premises
+# The theorems assume, per view, that the writer inverts the reader on the values the file holds (c10_property:
+# codec_ok_at).  That is property C11; its translators regenerate the codec of every view from bsp.py as Coq objects
+# (Gen/BspFormats_gen.v, Gen/BspGlue_gen.v) and its check states boolean obligations over them.  C10 re-derives the
+# same objects on every run and discharges the obligations that concern the round trip of values READ FROM A FILE
+# (not the half of C11 about rejecting values that do not fit), grouped by the view whose premise they support.
+FACE_VIEWS = ('faces', 'hdr_faces', 'orig_faces')
+WRITER_VIEWS = {'_write_faces_common': FACE_VIEWS}
+STREAM_VIEWS = {
+    'planes': ('planes',), 'vertexes': ('vertexes',), 'edges': ('surfedges',), 'surfedges': ('surfedges',),
+    'primverts': ('primitives',), 'primindices': ('primitives',), 'primitives': ('primitives',), 'faceids': ('faces', 'hdr_faces'),
+    'faces': FACE_VIEWS, 'faces_vitamin': FACE_VIEWS, 'brushsides': ('brushes',), 'brushsides_vitamin': ('brushes',),
+    'brushes': ('brushes',), 'leafwaterdata': ('water_leaf_info',), 'leafbrushes': ('visleafs',), 'leaffaces': ('visleafs',),
+    'leafmindisttowater': ('visleafs',), 'leafs': ('visleafs',), 'leafs_v19': ('visleafs',), 'leafs_vitamin': ('visleafs',),
+    'nodes': ('nodes',), 'vis_cluster_count': ('visibility',), 'vis_offsets': ('visibility',),
+    'texdata_string_table': ('textures',), 'texdata': ('texinfo',), 'texdata_vitamin': ('texinfo',), 'texinfo': ('texinfo',),
+    'bmodels': ('bmodels',), 'physcollide_header': ('bmodels',), 'physcollide_solid_size': ('bmodels',), 'cubemaps': ('cubemaps',),
+    'overlay_fades': ('overlays',), 'overlay_system_levels': ('overlays',), 'prop_dict_count': ('props',),
+    'prop_dict_name': ('props',), 'sprp_leaf_count': ('props',), 'sprp_leaf_array': ('props',), 'sprp_prop_count': ('props',),
+    'dprp_sprite_count': ('detail_props',), 'dprp_sprite': ('detail_props',), 'dprp_detail_count': ('detail_props',),
+    'dprp_detail': ('detail_props',), 'detail_model': ('detail_props',), 'detail_sprite': ('detail_props',),
+    'detail_shape': ('detail_props',),
+}
+PREFIX_VIEWS = [('vis_', ('visibility',)), ('texdata_', ('textures',)), ('ent_', ('ents',)), ('overlay_', ('overlays',)),
+                ('face_', FACE_VIEWS), ('leaf_', ('visleafs',)), ('brushside_', ('brushes',)), ('detail_', ('detail_props',)),
+                ('prop_', ('props',)), ('helper_property_split_agrees:StaticProp', ('props',)),
+                ('bool_code_agrees:DetailProp', ('detail_props',)), ('bool_code_agrees:StaticProp', ('props',))]
+# the half of C11 that is about REJECTING values a user assigned (guards, range checks): says nothing about values read from a file
+# views whose reader is iter_unpack of one format and whose writer packs every record with it (stream name = view name)
+RECORD_ARRAY_VIEWS = ('planes', 'vertexes', 'cubemaps')
+C11_REJECTION_ONLY = ('ns_site_guarded:', 'vis_writer_checks_row_length', 'no_value_is_masked_before_pack', 'find_or_extend_checks_bounds')
+
+
+def views_of_c11_obligation(name: str) -> tuple[str, ...]:
+    """The views whose codec premise an obligation of C11 supports ('*' = the struct layer under every view)."""
+    head, _, arg = name.partition(':')
+    if head in ('record_fields_agree', 'lump_formats_agree') and arg in STREAM_VIEWS:
+        return STREAM_VIEWS[arg]
+    if head == 'record_variants_cover_every_layout' and arg in STREAM_VIEWS:
+        return STREAM_VIEWS[arg]
+    if head == 'dedup_key_determines_record':        # '<writer function>:<table>'
+        fn = arg.split(':')[0]
+        if fn in WRITER_VIEWS:
+            return WRITER_VIEWS[fn]
+        if fn.startswith('_lmp_write_') and fn[len('_lmp_write_'):] in VIEWS:
+            return (fn[len('_lmp_write_'):],)
+    for pre, vs in PREFIX_VIEWS:
+        if name.startswith(pre):
+            return vs
+    return ('*',)
+
+
+def codec_obligations(fside: dict, glue: dict) -> dict[str, tuple[str, str, tuple[str, ...]]]:
+    """name -> (boolean Coq expression, 'formats' | 'glue' | 'c10', views).  The expressions over Gen/BspFormats_gen.v are those
+    of checks/c11.py (run), the ones over Gen/BspGlue_gen.v come from checks.c11.glue_obligations."""
+    from checks import c11 as C11
+    obs: dict[str, tuple[str, str]] = {}
+    for name, _appl, _r, _w in c11_formats.STREAMS:
+        obs[f'lump_formats_agree:{name}'] = (f'stream_ok_named layouts streams "{name}"', 'formats')
+    for v in fside.get('prop_versions', {}):
+        obs[f'prop_layout_agree:{v}'] = ('match find (fun v => let \'(n, _, _, _) := v in String.eqb n "%s") prop_versions with '
+                                         'Some v => prop_ok v | None => false end' % v, 'formats')
+        obs[f'prop_fields_agree:{v}'] = ('match find (fun v => let \'(n, _, _) := v in String.eqb n "%s") prop_fields with '
+                                         'Some v => fields_ok v | None => false end' % v, 'formats')
+    obs['overlay_block_agrees_for_every_face_count'] = (
+        'overlay_ok overlay_reader overlay_writer_head overlay_writer_tail overlay_face_count overlay_writer_max_faces '
+        'overlay_reader_max_faces overlay_face_fmts', 'formats')
+    obs['detail_kind_dispatch:all'] = ('dispatch_ok detail_classes detail_write_dispatch detail_read_dispatch', 'formats')
+    obs['every_format_string_is_in_the_modelled_language'] = ('forallb (fun l => forallb (fun kv => fmt_known (snd kv)) (snd l)) layouts',
+                                                              'formats')
+    for n, e in C11.glue_obligations(glue).items():
+        obs[n] = (e, 'glue')
+    out: dict[str, tuple[str, str, tuple[str, ...]]] = {}
+    for n, (e, kind) in obs.items():
+        if n.startswith(C11_REJECTION_ONLY):
+            continue
+        vs = views_of_c11_obligation(n)
+        out[f'codec[{"+".join(vs)}]:{n}'] = (e, kind, vs)
+    # C10's own: the step from the generated texture-table configuration to the premise (theorem c10_textures_codec_premise)
+    out['codec[textures]:c10_textures_codec_premise_applies'] = ('texcfg_ok tex_cfg && texcfg_window_is_guard tex_cfg', 'c10', ('textures',))
+    out['codec[textures]:every_name_the_reader_returns_passes_the_writers_guard'] = ('texcfg_window_is_guard tex_cfg', 'c10', ('textures',))
+    # views that are a plain array of fixed records: theorem c10_record_array_codec_from_generated_stream applies in every
+    # layout table (one well-formed format of positive size on both sides)
+    for v in RECORD_ARRAY_VIEWS:
+        out[f'codec[{v}]:c10_record_array_codec_premise_applies'] = (f'rec_stream_ok layouts streams "{v}"', 'c10f', (v,))
+    return out
+
+
+def codec_stage(ck: Ck, ok_f: bool, ok_g: bool) -> dict[str, bool]:
+    """Discharge the per-view codec premises over C11's view codecs as regenerated from today's bsp.py (run: before the first build,
+    so that every Gen file this check needs exists when make computes its dependencies)."""
+    from checks import c11 as C11
+    tr = ck.extra.get('translated', {})
+    if not (ok_f and ok_g and ck.build(['Gen/BspFormats_gen.vo', 'Gen/BspGlue_gen.vo', 'SM/LazyLumpsCodec.vo', 'SM/LazyLumpsRecCodec.vo'])):
+        return {}
+    obs = codec_obligations(tr.get('BspFormats_gen', {}), tr.get('BspGlue_gen', {}))
+    res: dict[str, bool] = {}
+    for kind, imports in (('formats', C11.IMPORTS + ['SV.SM.LazyLumpsRecCodec']), ('glue', C11.IMPORTS_GLUE + ['SV.SM.LazyLumpsCodec'])):
+        part = {n: e for n, (e, k, _) in obs.items() if k == kind or (kind, k) in (('glue', 'c10'), ('formats', 'c10f'))}
+        if part:
+            res.update(ck.instance_obligations(imports, part, name='codec_' + kind))
+    per_view: dict[str, list[str]] = {v: [] for v in VIEWS}
+    for n, (_, _, vs) in obs.items():
+        for v in (VIEWS if vs == ('*',) else vs):
+            per_view.setdefault(v, []).append(n.split(']:', 1)[1])
+    specific = {v: [n for n, (_, _, vs) in obs.items() if v in vs] for v in VIEWS}
+    ck.extra['codec_premise_obligations_per_view'] = {v: len(ns) for v, ns in specific.items()}
+    ck.extra['views_without_a_codec_obligation_of_their_own'] = sorted(v for v, ns in specific.items() if not ns)
+    ck.extra['codec_obligations_false'] = sorted(n for n, ok in res.items() if not ok)
+    return res
+
+
+def memoise_lzma() -> None:
+    """compress_lzma is a pure function of its argument and by far the most expensive step of a save (23 ms per lump):
+    the hundreds of saves of the same few compressed lumps share its results.  The function called is still the
+    implementation's (a fault in it shows in every result); only repeated calls with equal bytes are answered from memory."""
+    import functools
+    import srctools.binformat as F
+    import srctools.bsp as B
+    if getattr(F.compress_lzma, '_c10_memo', False):
+        return
+    orig = F.compress_lzma
+    cached = functools.lru_cache(maxsize=8192)(lambda data: orig(data))
+
+    def compress_lzma(data: bytes) -> bytes:
+        return cached(bytes(data))
+    compress_lzma._c10_memo = True      # type: ignore[attr-defined]
+    compress_lzma.__wrapped__ = orig    # type: ignore[attr-defined]
+    F.compress_lzma = compress_lzma
+    if getattr(B, 'compress_lzma', None) is orig:
+        B.compress_lzma = compress_lzma
+
+
 # ================================================================================================ main
 def run(ck: Ck) -> None:
     ck.rule = ('inputs: tests/test_vec/rot_main.bsp and synthesised consistent BSPs (7 layouts x options: LZMA lumps, '
                'compressed / extra game lumps, missing aux lumps, FACEIDS variants, no origin vertex, water, vis; side lumps '
                '(OVERLAY_FADES, OVERLAY_SYSTEM_LEVELS, LEAFMINDISTTOWATER, LEAFFACES, LEAFBRUSHES, PRIMINDICES, PRIMVERTS, '
                'BRUSHSIDES, TEXDATA, TEXDATA_STRING_TABLE) at the values where they look unused: all zero, the reader\'s defaults '
-               'for an absent lump, first record zero, all bits set, optional side lumps absent); histories: '
+               'for an absent lump, first record zero, all bits set, optional side lumps absent); every synthesised file has '
+               'adversarial-but-valid table contents (texture names that are prefix / inner substring / tail of an earlier name, a '
+               '127-character name, two table entries for one string, exact and near duplicates of texdata / texinfo / planes / '
+               'vertexes / edges, prop and detail-prop dictionaries with prefix and unused names, entity text that needs escaping); '
+               'static-prop layouts V4..V13, lightmapped and Black Mesa chosen by the game-lump version; empty prop / detail / overlay '
+               '/ cubemap tables; LZMA blobs with foreign parameters, small dictionary field and trailing NUL; FACEIDS longer than '
+               'the face array; the bundled map also with an adversarial texture-name table; histories: '
                'no access, every single view, every ordered pair on the default file, random subsets and orders, all views '
                'forwards/backwards, 1-3 look/save cycles; 9 malformed inputs (unknown static-prop version, stray bytes in the prop '
                'lump, unterminated entity, entity naming a missing brush model, texinfo naming a missing texdata, truncated detail props / overlays, also LZMA-compressed) '
@@ -836,18 +1079,28 @@ def run(ck: Ck) -> None:
     ck.assumptions.append('decompress (compress d) = d (hypothesis of c10_container_roundtrip); appends by writers to views they '
                           'look at are no-ops on values parsed from the file (C11 find_or_insert_sound + table completeness)')
     ck.assumptions.append('codec_ok / wr_len_ok (each writer inverts its reader on the lumps of the file: C11) are hypotheses of '
-                          'the theorems; the oracle checks them end to end on the sample inputs only')
+                          'the theorems, one premise per view in c10_property; proved from the generated object for the texture-name '
+                          'view, supported by C11\'s generated-object obligations (re-derived here on every run) for the others, '
+                          'checked end to end by the oracle on the inputs')
+    ck.trusted.append('translate/c11_formats.py, translate/c11_glue.py (and the c11_* modules they use) and checks.c11.glue_obligations: '
+                      'C11\'s translators and obligation expressions, used unchanged for the per-view codec premises')
     import time
+    memoise_lzma()
     work = ck.scratch / 'bsp'
     work.mkdir()
     tm = ck.extra.setdefault('timing_s', {})
     t0 = time.time()
     ok_t = ck.translate('BspGraph_gen', c10_bspgraph.translate)
+    ok_f = ck.translate('BspFormats_gen', c11_formats.translate)
+    ok_g = ck.translate('BspGlue_gen', c11_glue.translate)
+    tm['translate'] = round(time.time() - t0, 1)
     side = ck.extra.get('translated', {}).get('BspGraph_gen')
     built = ok_t and ck.build(['Props/C10.vo', 'Gen/BspGraph_gen.vo'])
+    tm['translate+build'] = round(time.time() - t0, 1)
     inst: dict[str, bool] = {}
     if built:
         ck.theorems('Props/C10.v')
+        tm['translate+build+assumptions'] = round(time.time() - t0, 1)
         n = 'length bsp_graph'
         vpos = {v: i for i, v in enumerate(side['view_at']) if v}
         reviewed = sorted((vpos[a], vpos[b]) for a, b in REVIEWED_ELEMENT_MUTATIONS if a in vpos and b in vpos)
@@ -911,6 +1164,9 @@ def run(ck: Ck) -> None:
         })
     tm['translate+build+obligations'] = round(time.time() - t0, 1)
     t0 = time.time()
+    codec = codec_stage(ck, ok_f, ok_g) if built else {}
+    tm['codec_premises'] = round(time.time() - t0, 1)
+    t0 = time.time()
     # ---------------------------------------------------------------------------- inputs
     own = owners(side)
     READER_DEPS.clear()
@@ -919,40 +1175,79 @@ def run(ck: Ck) -> None:
     subjects: list[Subject] = []
     if SAMPLE.exists():
         subjects.append(Subject('rot_main.bsp', SAMPLE, {'file': 'tests/test_vec/rot_main.bsp'}))
+        derived = derive_sample(work)
+        if derived is not None:
+            subjects.append(derived)
     else:
         ck.notes.append('tests/test_vec/rot_main.bsp missing')
     synth_subjects: list[tuple[dict, Subject]] = []
+
+    def guarded_subject(opts: dict, seed: int, tag: str) -> Subject | None:
+        """Reading a well-formed synthesised file must neither raise nor hang: either is a failing input of its own."""
+        try:
+            return with_alarm(TRIAL_LIMIT_S, make_subject, work, opts, seed, tag)
+        except TrialTimeout:
+            what = f'BSP() does not return within {TRIAL_LIMIT_S} s'
+        except Exception as e:      # noqa: BLE001
+            what = f'BSP() raises {type(e).__name__}: {e}'
+        tagk = ','.join(f'{k}={"+".join(v) if isinstance(v, tuple) else v}' for k, v in sorted(opts.items())) or 'default'
+        ck.violation(f'read-fails|input:{tagk}', what, {'input': {'opts': opts, 'seed': seed}, 'cycles': [],
+                                                        'how': 'harness.c10_util.synth(random.Random(seed), **opts) -> BSP(file)'})
+        return None
     for k, opts in enumerate(VARIANTS):
-        s = make_subject(work, opts, ck.seed + k, f'v{k}')
+        s = guarded_subject(opts, ck.seed + k, f'v{k}')
+        if s is None:
+            if k == 1:
+                return      # the default file cannot even be read: nothing else can be said
+            continue
         synth_subjects.append((opts, s))
         ck.hist('input_layout', dict(DEFAULT_OPTS, **opts)['layout'])
-    default = synth_subjects[1][1]      # layout v20, default options
+    default = next(s for o, s in synth_subjects if o == dict(layout='v20'))      # layout v20, default options
     bad_subjects: list[tuple[dict, Subject]] = []
     for k, opts in enumerate(BAD_VARIANTS):
-        bad_subjects.append((opts, make_subject(work, opts, ck.seed + 100 + k, f'b{k}')))
+        s = guarded_subject(opts, ck.seed + 100 + k, f'b{k}')
+        if s is not None:
+            bad_subjects.append((opts, s))
         ck.hist('input_malformed', '+'.join(opts['bad']))
     # ---------------------------------------------------------------------------- correspondence
     if built and side:
-        aux_zero = next(s for o, s in synth_subjects if o == dict(aux='zero'))
-        corr_files = [default, synth_subjects[0][1], synth_subjects[5][1], aux_zero] + subjects[:1] + \
-                     [bad_subjects[1][1], bad_subjects[3][1], bad_subjects[5][1]]
+        corr_files = [default] + [s for o, s in synth_subjects if o in (dict(layout='v19'), dict(layout='chaos'), dict(aux='zero'))] + \
+            subjects[:1] + [s for o, s in bad_subjects if o in (BAD_VARIANTS[1], BAD_VARIANTS[3], BAD_VARIANTS[5])]
         correspondence(ck, side, corr_files, work)
-        container_check(ck, [s for o, s in synth_subjects if 'aux' not in o] + [s for _, s in bad_subjects[:2]] + subjects[:1], work)
-        container_model_check(ck, work)
+        # stage limits: 10 s / 10 s on a loaded machine; a save or read that never returns ends as a failed tie, not as a hung check
+        for nm, fn, args in (('correspondence:container', container_check,
+                              ([s for o, s in synth_subjects if 'aux' not in o] + [s for _, s in bad_subjects[:2]] + subjects[:1], work)),
+                             ('correspondence:container-model', container_model_check, (work,))):
+            try:
+                with_alarm(1200, fn, ck, *args)
+            except TrialTimeout:
+                ck.obligation(nm, False, 'stage did not return within 1200 s (a call into BSP() / BSP.save hangs)')
+                ck.tie_broken.append(nm + ': stage timed out')
     tm['inputs+correspondence'] = round(time.time() - t0, 1)
     t0 = time.time()
     # ---------------------------------------------------------------------------- search
     found: dict[str, dict] = {}
     rng = ck.rng
 
+    hangs = [0]
+
     def attempt(subj: Subject, opts: dict | None, cycles: list[list[str]]) -> None:
+        if hangs[0] >= 2:       # two histories that do not return are reported; every further one could cost the limit again
+            ck.count('save_roundtrips_skipped_after_hangs')
+            return
         ck.count('save_roundtrips')
         for accs in cycles:
             ck.hist('views_per_cycle', len(accs))
         ck.hist('cycles', len(cycles))
         if any(cycles):
             ck.seen((subj.name, tuple(tuple(c) for c in cycles)))
-        probs = run_trial(subj, cycles, work, own)
+        try:
+            probs = with_alarm(TRIAL_LIMIT_S, run_trial, subj, cycles, work, own)
+        except TrialTimeout:
+            hangs[0] += 1
+            probs = [('hangs', f'no result after {TRIAL_LIMIT_S} s (a look, save or re-read does not return)')]
+        except Exception as e:      # noqa: BLE001 - anything the oracle itself did not expect from the implementation
+            probs = [('oracle-raises', f'{type(e).__name__}: {e}')]
         for kind, detail in probs:
             report(subj, opts, cycles, kind, detail)
 
@@ -968,12 +1263,31 @@ def run(ck: Ck) -> None:
                                    'n': 0, 'how': 'checks.c10.replay'})['n'] += 1
             seen_cause[kind, subj.name] = key
             return
+        if kind in ('hangs', 'oracle-raises'):      # not shrunk: every further attempt would cost the time limit again
+            if kind == 'hangs':     # ... except for one cheap pass: which single view does not come back within 10 s
+                for v in dict.fromkeys(v for c in cycles for v in c):
+                    try:
+                        with_alarm(10, run_trial, subj, [[v]], work, own)
+                    except TrialTimeout:
+                        cycles = [[v]]
+                        break
+                    except Exception:      # noqa: BLE001
+                        pass
+            viewed = '+'.join(sorted({v for c in cycles for v in c})) or 'nothing'
+            key = f'{kind}|viewed={viewed}|' + ('file=' + subj.name if opts is None else 'input:' + (','.join(f'{k}={v}' for k, v in sorted(opts.items())) or 'default'))
+            seen_cause[kind, subj.name] = key
+            found.setdefault(key, {'kind': kind, 'detail': detail, 'input': subj.desc, 'cycles': cycles, 'original_cycles': cycles,
+                                   'n': 0, 'how': 'checks.c10.replay'})['n'] += 1
+            return
         memo_t: dict = {}
 
         def fails_with(sub: Subject, cyc) -> bool:
             k = (sub.name, sub.desc.get('seed'), repr(cyc))
             if k not in memo_t:
-                memo_t[k] = any(k2 == kind for k2, _ in run_trial(sub, cyc, work, own))
+                try:
+                    memo_t[k] = any(k2 == kind for k2, _ in with_alarm(TRIAL_LIMIT_S, run_trial, sub, cyc, work, own))
+                except TrialTimeout:
+                    memo_t[k] = False
             return memo_t[k]
         # shrink the history: fewer cycles, fewer views, then views deeper in the dependency graph
         cyc = [list(c) for c in cycles]
@@ -1015,18 +1329,21 @@ def run(ck: Ck) -> None:
         found[key]['n'] += 1
 
     # corpus: past failures first
-    attempt(default, synth_subjects[1][0], [['water_leaf_info']])
+    attempt(default, dict(layout='v20'), [['water_leaf_info']])
     for k, (opts, s) in enumerate(synth_subjects):
         attempt(s, opts, [[]])
         attempt(s, opts, [list(VIEWS)])
-        if k < len(c10_util.LAYOUTS) or ck.budget(0, 1):
+        is_layout = set(opts) == {'layout'}
+        if is_layout or ck.budget(0, 1):
             attempt(s, opts, [list(reversed(VIEWS))])
         # every single view on every layout (quick: on v19, v20, l4d2, chaos, vitamin; a sample of 8 on v21 and infra, which share
         # their lump layouts' code paths with v20 / chaos); on the option variants a sample of 4 in the quick tier
-        if (k < len(c10_util.LAYOUTS) and dict(DEFAULT_OPTS, **opts)['layout'] not in ('v21', 'infra')) or ck.budget(0, 1):
+        if (is_layout and opts['layout'] not in ('v21', 'infra')) or ck.budget(0, 1):
             singles = VIEWS
-        elif k < len(c10_util.LAYOUTS):
+        elif is_layout:
             singles = rng.sample(VIEWS, 8)
+        elif 'sprp' in opts or 'empty' in opts:     # the game-lump views and what their readers reach
+            singles = ['props', 'detail_props', 'overlays', 'cubemaps']
         elif 'aux' in opts:     # the views that own side lumps (and faces: FACEIDS), each alone
             singles = [v for v in VIEWS if v == 'faces' or sum(1 for w in own.values() if w == v) > 1]
         else:
@@ -1035,7 +1352,15 @@ def run(ck: Ck) -> None:
             attempt(s, opts, [[v]])
     # malformed lumps: looks that raise are caught (like a defensive caller does), then the object is saved
     for opts, s in bad_subjects:
-        failing = [v for v in VIEWS if s.unparsable(v)]
+        if hangs[0] >= 2:
+            continue
+        try:
+            failing = with_alarm(TRIAL_LIMIT_S * 2, lambda s=s: [v for v in VIEWS if s.unparsable(v)])
+        except TrialTimeout:
+            hangs[0] += 1
+            failing = []
+        if not failing:     # reading the views of this input hangs or nothing fails any more: the generic histories below still run
+            failing = ['props']
         ck.hist('unparsable_views_per_malformed_input', len(failing))
         attempt(s, opts, [[]])
         attempt(s, opts, [list(VIEWS)])
@@ -1048,7 +1373,7 @@ def run(ck: Ck) -> None:
             attempt(s, opts, cyc)
     for k, (a, b) in enumerate(itertools.permutations(VIEWS, 2)):
         if (a < b and k % 5 == 0) or ck.budget(0, 1):
-            attempt(default, synth_subjects[1][0], [[a, b]])
+            attempt(default, dict(layout='v20'), [[a, b]])
     nrand = ck.budget(32, 3000)
     for i in range(nrand):
         opts, s = synth_subjects[rng.randrange(len(synth_subjects))]
@@ -1061,32 +1386,50 @@ def run(ck: Ck) -> None:
     t0 = time.time()
     for subj in subjects:       # the sample map (large entity lump: fewer trials)
         attempt(subj, None, [[]])
+        if subj.desc.get('derive'):     # the views that rebuild the changed table; thorough: every view alone, a few histories
+            attempt(subj, None, [['texinfo']])
+            if ck.budget(0, 1):
+                for v in VIEWS:
+                    attempt(subj, None, [[v]])
+                for i in range(10):
+                    attempt(subj, None, [rng.sample(VIEWS, rng.choice([2, 3, 6, 12])) for _ in range(rng.choice([1, 2]))])
+            continue
         for v in (VIEWS if ck.budget(0, 1) else rng.sample(VIEWS, 4)):
             attempt(subj, None, [[v]])
         attempt(subj, None, [list(VIEWS)])
         for i in range(ck.budget(1, 60)):
             attempt(subj, None, [rng.sample(VIEWS, rng.choice([2, 3, 6, 12])) for _ in range(rng.choice([1, 2]))])
     tm['search_sample_map'] = round(time.time() - t0, 1)
-    ck.sample({'input': default.desc, 'cycles': [['faces', 'ents'], ['bmodels']],
-               'result': run_trial(default, [['faces', 'ents'], ['bmodels']], work, own) or 'lossless'})
+    if hangs[0] < 2:
+        try:
+            ck.sample({'input': default.desc, 'cycles': [['faces', 'ents'], ['bmodels']],
+                       'result': with_alarm(TRIAL_LIMIT_S, run_trial, default, [['faces', 'ents'], ['bmodels']], work, own) or 'lossless'})
+        except TrialTimeout:
+            pass
     # a broken graph obligation that the small search could not turn into a failing history: search harder
+    # findings recorded as known (known_findings.json) explain nothing: only NEW concrete histories may account for a broken tie
+    from harness.common import load_known
+    known_keys = {k['key'] for k in load_known().get('known', []) if k.get('property') == 'C10'}
+
+    def fresh_found() -> dict[str, dict]:
+        return {k: f for k, f in found.items() if k not in known_keys}
     broken = [o['name'] for o in ck.obligations if not o['ok'] and not o.get('explained')]
-    if broken and not found and not ck.thorough:
+    if broken and not fresh_found() and not ck.thorough:
         ck.tie_broken.append('obligations failed and the quick search found no failing history: ' + ', '.join(broken))
         for i in range(1500):
             opts, s = synth_subjects[rng.randrange(len(synth_subjects))]
             attempt(s, opts, [rng.sample(VIEWS, rng.choice([1, 2, 3, 5, 9, 14, 21])) for _ in range(rng.choice([1, 1, 2, 3]))])
-            if found:
+            if fresh_found():
                 break
     if inst.get('shape_ok_bsp_shape') is False and any(f['kind'].split(':')[0] in ('failed-look-changed-lump', 'raw-changed-unparsable',
-                                                                                 'cache-not-empty-after-save') for f in found.values()):
+                                                                                 'cache-not-empty-after-save') for f in fresh_found().values()):
         # outside the shapes the model was validated for (its abstraction of "the reader raises" is not data-exact there):
         # the concrete findings above are the explanation
         ck.explain('correspondence:get-save-model')
     if any(inst.get(nm) is False for nm in ('order_consistent_bsp_graph', 'every_cleared_lump_stored_by_its_writer',
                                             'cleared_lumps_are_never_stored_conditionally')) \
             and any(f['kind'].split(':')[0] in ('view-content-changed', 'raw-changed', 'cache-not-empty-after-save')
-                    for f in found.values()):
+                    for f in fresh_found().values()):
         # the model stores every lump of v_wstore when a writer runs; a writer that skips the store of a cleared lump (or a graph
         # that is not order-consistent) is outside it, the traced runs disagree about the lumps left empty after save, and the
         # concrete histories above show the loss
@@ -1095,7 +1438,7 @@ def run(ck: Ck) -> None:
         ck.violation(key, f'{f["kind"]}: {f["detail"]}', {k: v for k, v in f.items() if k != 'n'})
     ck.extra['violation_keys'] = sorted(found)
     # a failed graph obligation is explained by a concrete failing history of the matching kind
-    kinds = {f['kind'].split(':')[0] for f in found.values()}
+    kinds = {f['kind'].split(':')[0] for f in fresh_found().values()}
     if kinds & {'view-content-changed', 'cache-not-empty-after-save', 'raw-changed', 'save-raises', 'look-raises',
                 'failed-look-changed-lump', 'raw-changed-unparsable'}:
         for nm in ('shape_ok_bsp_shape', 'get_clears_raw_data_only_after_the_reader_has_finished', 'get_caches_every_parsed_value',
@@ -1112,6 +1455,16 @@ def run(ck: Ck) -> None:
                    'cleared_lumps_are_never_stored_conditionally'):
             if inst.get(nm) is False:
                 ck.explain('instance:' + nm)
+    # a false codec premise is explained by a concrete look + save history that changes content, raises or is unstable
+    if kinds & {'hangs', 'oracle-raises'}:
+        ck.explain('correspondence:')
+    if kinds & {'view-content-changed', 'save-raises', 'look-raises', 'reread-fails', 'second-save-differs', 'raw-changed', 'hangs'}:
+        for nm, ok in codec.items():
+            if not ok:
+                ck.explain('instance:' + nm)
+        # C11's translators failing closed on a changed codec: the per-view premises could not be re-derived
+        ck.explain('translate:BspGlue_gen')
+        ck.explain('translate:BspFormats_gen')
 
 
 def replay(data: dict) -> int:
@@ -1119,15 +1472,25 @@ def replay(data: dict) -> int:
     r = data['replay']
     with tempfile.TemporaryDirectory(dir='/var/tmp') as td:
         work = Path(td)
-        if 'file' in r.get('input', {}):
+        if r.get('input', {}).get('derive') == 'names':
+            subj = derive_sample(work)
+        elif 'file' in r.get('input', {}):
             subj = Subject('rot_main.bsp', REPO / r['input']['file'], r['input'])
         elif 'opts' in r.get('input', {}):
             opts = {k: tuple(v) if isinstance(v, list) else v for k, v in r['input']['opts'].items()}
-            subj = make_subject(work, opts, r['input']['seed'], 'replay')
+            try:
+                subj = with_alarm(TRIAL_LIMIT_S, make_subject, work, opts, r['input']['seed'], 'replay')
+            except (Exception, TrialTimeout) as e:      # noqa: BLE001
+                print('input:', opts)
+                print('PROBLEM', ('read-fails', f'BSP() of the synthesised file: {type(e).__name__}: {e}'))
+                return 0
         else:
             print(r)
             return 0
-        probs = run_trial(subj, r['cycles'], work, owners(None))
+        try:
+            probs = with_alarm(TRIAL_LIMIT_S, run_trial, subj, r['cycles'], work, owners(None))
+        except TrialTimeout:
+            probs = [('hangs', f'no result after {TRIAL_LIMIT_S} s')]
         print('input:', subj.desc)
         print('cycles:', r['cycles'])
         for p in probs:
